@@ -8,7 +8,7 @@ import time
 from multiprocessing import Pool
 
 from common import asan_stage, NCPU, WORK, Result, SplitMix, build, finish, seed, workdir
-from fsutil import (B3, MUTATING, STAGING, base_env, clear_traces, content_map, is_staging, read_traces, rmtree, run, set_mtime, shim_env, snapshot, write_file)
+from fsutil import (copy_tree, B3, MUTATING, STAGING, base_env, clear_traces, content_map, is_staging, read_traces, rmtree, run, set_mtime, shim_env, snapshot, write_file)
 
 PATH_POOL = ["f", "g", "d/h", "d/e/i", "d.x", "d/e.y", "with space", "it's", "new\nline", "é日", "-dash", "d/star*", "q?", "$x", "c", "c/x", "back\\slash", "h.txt", "d/" + "日" * 70, "p" + "é" * 104]
 SHARED_CONTENTS = [b"Z", b"Y", b"", b"X" * 3000, b"W" * 70000]
@@ -799,7 +799,7 @@ def inject_fault(sb, kind, rng, arg=None):
         # a real archive produced by copia for another pair (A, B2) with the same A content
         b2 = os.path.join(sb.root, "B2")
         rmtree(b2)
-        shutil.copytree(sb.B, b2)
+        copy_tree(sb.B, b2)
         r = run(["bisync", sb.A, b2], sb.env())
         others = [x for x in os.listdir(sb.archive_dir()) if x.endswith(".json") and os.path.join(sb.archive_dir(), x) != f]
         # undo whatever that run did to A: not needed for the verdict (snapshots are taken afterwards)
@@ -1118,13 +1118,13 @@ def save_state(sb, save):
     rmtree(save)
     os.makedirs(save)
     for d in ("A", "B", "home"):
-        shutil.copytree(os.path.join(sb.root, d), os.path.join(save, d), symlinks=True)
+        copy_tree(os.path.join(sb.root, d), os.path.join(save, d))
 
 
 def restore_state(sb, save):
     for d in ("A", "B", "home"):
         rmtree(os.path.join(sb.root, d))
-        shutil.copytree(os.path.join(save, d), os.path.join(sb.root, d), symlinks=True)
+        copy_tree(os.path.join(save, d), os.path.join(sb.root, d))
 
 
 def trace_monitor(evs, sb, label):
